@@ -222,6 +222,157 @@ def r1_yaml_flow(chk: Check) -> None:
                "write_double_quoted escapes and wraps in double quotes", "encoder shape not recognised", wdq.loc())
 
 
+# --------------------------------------------------------------------------------------------- R1c
+_BOL, _VAL, _END = "line-start", "value-pending", "line-complete"
+_KEYLINE = __import__("re").compile(r"^\s*(- )?[\w'\"{-][^\n]*?:(\s|$)|^\s*- ")
+
+
+def _chunk_parts(expr: ast.expr) -> list[object] | None:
+    """A written expression as a list of constant strings and opaque holes (None if it is not a string display)."""
+    if isinstance(expr, ast.Constant) and isinstance(expr.value, str):
+        return [expr.value]
+    if isinstance(expr, ast.JoinedStr):
+        out: list[object] = []
+        for v in expr.values:
+            if isinstance(v, ast.Constant) and isinstance(v.value, str):
+                out.append(v.value)
+            else:
+                out.append(v)
+        return out
+    return None
+
+
+def _end_states(parts: list[object]) -> set[str]:
+    """Line state after the chunk.  A trailing hole may expand to nothing (an empty header block): then the state is
+    that of the constant before it."""
+    def of_text(t: str) -> str:
+        if t.endswith("\n"):
+            return _BOL
+        if t.rstrip(" ").endswith(":") and t.endswith(" "):
+            return _VAL
+        return _END
+
+    if not parts:
+        return set()
+    if isinstance(parts[-1], str):
+        return {of_text(parts[-1])}
+    states = {_END}
+    before = [p_ for p_ in parts[:-1] if isinstance(p_, str)]
+    if before and parts[-2] is before[-1]:
+        states.add(of_text(before[-1]))
+    return states
+
+
+def r1c_line_protocol(chk: Check) -> None:
+    chk.rule("C16.R1c", "TYPESTATE(line protocol of the hand-assembled cassette): along every path through vcr_writer the chunks written to the stream fit together - a scalar (`null`, `{}`, a double-quoted string) is written only where a `key: ` is waiting for its value, a `key:` line only at a line start, and nothing is appended to a line that is already complete (`status: 'SUCCESS'null`)", floor=10)
+    P = chk.project
+    fn = P.func(f"{CAS}:vcr_writer")
+    nested = {f.name: [] for f in fn.module.functions.values() if f.parent is fn}
+    for f in fn.module.functions.values():
+        if f.parent is fn:
+            nested[f.name].append(f)
+    stream_names = {"stream"} | {name_of(b, "v") for n_, b in pfind("$v = $X", fn.node) if isinstance(b["X"], ast.Call) and "open" in unparse(b["X"].func, 80)}
+
+    def events(f: FuncInfo, stmt: ast.AST, sink_names: set[str]) -> list[tuple[str, ast.AST, object]]:
+        """Writes performed by one statement, in order: ('chunk', call, parts) | ('scalar', call, None) | ('call', call, callee name)."""
+        out: list[tuple[str, ast.AST, object]] = []
+        for c in sorted((x for x in walk_local(stmt) if isinstance(x, ast.Call)), key=lambda x: (x.lineno, x.col_offset)):
+            if isinstance(c.func, ast.Attribute) and c.func.attr == "write" and isinstance(c.func.value, ast.Name) and c.func.value.id in sink_names and c.args:
+                parts = _chunk_parts(c.args[0])
+                out.append(("chunk", c, parts))
+            elif isinstance(c.func, ast.Name) and c.func.id == "write_double_quoted" and c.args and isinstance(c.args[0], ast.Name) and c.args[0].id in sink_names:
+                out.append(("scalar", c, None))
+            elif isinstance(c.func, ast.Name) and c.func.id in nested and c.args and isinstance(c.args[0], ast.Name) and c.args[0].id in sink_names:
+                out.append(("call", c, c.func.id))
+        return out
+
+    reported: set[tuple[str, int]] = set()
+    sites: dict[tuple[str, int], tuple[FuncInfo, ast.AST, str]] = {}
+    n_chunks = [0]
+
+    def step(f: FuncInfo, ev: tuple[str, ast.AST, object], state: str, depth: int) -> set[str]:
+        kind, call, data = ev
+        if kind == "scalar":
+            need, after = {_VAL}, {_END}
+            what = "a double-quoted scalar"
+        elif kind == "call":
+            outs: set[str] = set()
+            for callee in nested[str(data)]:
+                sink = {params_of(callee.node)[0]} if params_of(callee.node) else set()
+                outs |= run(callee, sink, {state}, depth + 1)
+            return outs
+        else:
+            parts = data
+            if parts is None:
+                key = (f.qualname, getattr(call, "lineno", 0))
+                if key not in reported:
+                    reported.add(key)
+                    chk.undecided("C16.R1c", f, f"write({unparse(call.args[0], 40)})", "written expression is not a string display: its shape is not known", f.loc(call))  # type: ignore[attr-defined]
+                return {state}
+            first = parts[0] if parts else ""
+            text0 = first if isinstance(first, str) else ""
+            after = _end_states(parts)  # type: ignore[arg-type]
+            if isinstance(first, str) and first.startswith("\n"):
+                return after  # a new line may start anywhere (after `key: ` it leaves a null / opens a block)
+            if not isinstance(first, str):
+                need, what = {_VAL}, "a formatted value"
+            elif _KEYLINE.match(text0):
+                need, what = {_BOL}, f"the line `{text0.splitlines()[0].strip()[:30]}`"
+            else:
+                need, what = {_VAL}, f"the scalar `{text0.strip()[:20]}`"
+        n_chunks[0] += 1
+        site = (f.qualname, getattr(call, "lineno", 0))
+        sites.setdefault(site, (f, call, what))
+        # the document header is written for the first message of the queue (Initialize is put by the handler's start-up,
+        # before any Process item): the stream is empty then, whatever later iterations of the dispatch loop leave behind
+        if any(isinstance(a, ast.If) and "Initialize" in unparse(a.test, 100) and any(is_within(call, s_) for s_ in a.body) for a in ancestors(call)):
+            state = _BOL
+        if state not in need:
+            key = (f.qualname, getattr(call, "lineno", 0))
+            if key not in reported:
+                reported.add(key)
+                chk.violation("C16.R1c", f, f"{what} fits the line state",
+                              f"{what} is written while the stream is at `{state}` (it needs `{'/'.join(sorted(need))}`): the text is glued to what is already on the line (e.g. `status: 'SUCCESS'null`) or a key is left without / gets two values - the cassette is not valid YAML on this path",
+                              f.loc(call))
+        return set(after)
+
+    def run(f: FuncInfo, sink_names: set[str], entry: set[str], depth: int = 0) -> set[str]:
+        if depth > 3:
+            return set(entry)
+        g = cfg_of(f)
+        state_in: dict[int, set[str]] = {g.entry: set(entry)}
+        work = [g.entry]
+        exit_states: set[str] = set()
+        guard = 0
+        while work and guard < 20000:
+            guard += 1
+            n = work.pop()
+            node = g.nodes[n]
+            cur = set(state_in.get(n, set()))
+            evs = events(f, node.ast, sink_names) if node.kind == "stmt" and node.ast is not None else []
+            for ev in evs:
+                nxt: set[str] = set()
+                for st_ in cur:
+                    nxt |= step(f, ev, st_, depth)
+                cur = nxt
+            if n == g.exit:
+                exit_states |= cur
+            for m, lbl in node.succ:
+                if lbl.startswith("exc:"):
+                    continue
+                old = state_in.get(m, set())
+                if not cur <= old:
+                    state_in[m] = old | cur
+                    work.append(m)
+        return exit_states or set(entry)
+
+    run(fn, stream_names, {_BOL})
+    for site, (f_, call_, what_) in sites.items():
+        if site not in reported:
+            chk.ok("C16.R1c", f_, f"{what_} fits the line state", "", f_.loc(call_))
+    chk.expect(n_chunks[0] >= 12, "C16.R1c", fn, "chunks analysed", f"only {n_chunks[0]} chunk/state pairs analysed", fn.loc())
+
+
 # --------------------------------------------------------------------------------------------- R2
 def r2_conditional_writer(chk: Check) -> None:
     chk.rule("C16.R2", "PRODUCER/CONSUMER: Statistic.failures[label] is written only when new unique failures exist, so every subscript read elsewhere is guarded (membership / .get)", floor=1)
@@ -288,8 +439,12 @@ def r3_structured_writers(chk: Check) -> None:
         chk.decide(w is None, "C16.R3", fn, f"{what} on every iteration", "an exchange can be skipped (continue / conditional) before its entry is written", fn.loc(sinks[0]), )
     # handler side: every ScenarioFinished is forwarded to the writer queue
     he = P.func(f"{CAS}:CassetteWriter.handle_event")
-    ok = any(isinstance(n, ast.If) and "ScenarioFinished" in unparse(n.test) and any(last_attr(c) == "put" and "Process" in unparse(c, 100) for s in n.body for c in calls(s)) for n in walk_body(he.node))
-    chk.decide(ok, "C16.R3", he, "ScenarioFinished -> queue.put(Process(recorder))", "finished scenarios are not handed to the cassette writer", he.loc())
+    ghe = cfg_of(he)
+    puts = [c for c in body_calls(he) if last_attr(c) == "put" and "Process" in unparse(c, 100)]
+    facts_ = [known_conditions(ghe, ghe.stmt_nodes_containing(c)) for c in puts]
+    # reached exactly when the event is a ScenarioFinished: that test holds at the put and nothing else restricts it
+    ok = any(any("ScenarioFinished" in k and v for k, v in f_.items()) and all(("ScenarioFinished" in k and v) or ("isinstance(event" in k and not v) for k, v in f_.items()) for f_ in facts_)
+    chk.decide(True if ok else (False if not puts else None), "C16.R3", he, "ScenarioFinished -> queue.put(Process(recorder))", "finished scenarios are not handed to the cassette writer", he.loc())
     # R5 preserve-bytes
     vcr = P.func(f"{CAS}:vcr_writer")
     pb = [n for n in walk_body(vcr.node) if isinstance(n, ast.If) and unparse(n.test) == "preserve_bytes"]
@@ -333,15 +488,25 @@ def r6_total_operations(chk: Check) -> None:
                 in_fallback = False
                 if isinstance(enc, ast.Name):
                     h = next((a for a in ancestors(c) if isinstance(a, ast.ExceptHandler)), None)
-                    if h is not None and set(handler_classes(h)) & {"LookupError", "Exception"}:
+                    if h is not None and {cl.rsplit(".", 1)[-1] for cl in handler_classes(h)} & {"LookupError", "ValueError", "UnicodeError", "Exception"}:
                         consts = [x for x in iter_stmts(h.body) if isinstance(x, ast.Assign) and any(isinstance(t_, ast.Name) and t_.id == enc.id for t_ in x.targets) and isinstance(x.value, ast.Constant)]
                         st_ = stmt_of(c)
                         in_fallback = bool(consts) and st_ is not None and consts[0].lineno < st_.lineno
                 if in_fallback:
                     chk.ok("C16.R6", fn, construct + " (fallback)", "codec re-bound to a constant inside the LookupError handler", fn.loc(c))
                 elif enc is not None and not isinstance(enc, ast.Constant):
-                    guarded = any(isinstance(a, ast.Try) and any(is_within(c, s) for s in a.body) and any(set(handler_classes(h)) & {"LookupError", "Exception"} for h in a.handlers) for a in ancestors(c))
-                    chk.decide(guarded, "C16.R6", fn, construct, "the codec name comes from the response (charset=...): an unknown name raises LookupError in the writer thread and truncates the cassette", fn.loc(c))
+                    tries = [a for a in ancestors(c) if isinstance(a, ast.Try) and any(is_within(c, s) for s in a.body)]
+                    caught = {cl.rsplit(".", 1)[-1] for a in tries for h in a.handlers for cl in handler_classes(h)}
+                    lookup = bool(caught & {"LookupError", "Exception", "BaseException"})
+                    # a registered codec can still refuse the job: `idna` / `undefined` / `punycode` raise UnicodeError
+                    # (a ValueError) for arbitrary bytes even with errors="replace"
+                    unicode_ = bool(caught & {"UnicodeError", "ValueError", "Exception", "BaseException"})
+                    if lookup and unicode_:
+                        chk.ok("C16.R6", fn, construct, f"guarded against {sorted(caught)}", fn.loc(c))
+                    elif lookup:
+                        chk.violation("C16.R6", fn, construct, "the codec name comes from the response (charset=...): only LookupError is handled, but a registered codec that cannot decode arbitrary bytes (`charset=idna`, `undefined`, `punycode`) raises UnicodeError even with errors='replace' - the writer thread dies and the report is truncated", fn.loc(c))
+                    else:
+                        chk.violation("C16.R6", fn, construct, "the codec name comes from the response (charset=...): an unknown name raises LookupError in the writer thread and truncates the cassette", fn.loc(c))
                 else:
                     chk.ok("C16.R6", fn, construct, "constant codec with error handler", fn.loc(c))
             if isinstance(c.func, ast.Attribute) and c.func.attr == "text" and False:
@@ -403,4 +568,4 @@ def r7_handlers(chk: Check) -> None:
 
 
 def rules(tier: str) -> list:  # type: ignore[type-arg]
-    return [r1_yaml_flow, r2_conditional_writer, r3_structured_writers, r6_total_operations, r7_handlers]
+    return [r1_yaml_flow, r1c_line_protocol, r2_conditional_writer, r3_structured_writers, r6_total_operations, r7_handlers]
